@@ -32,6 +32,10 @@ TRAITS = [
                                {"name": "peek", "recv": "ref", "args": ["cvptr", "vptr"], "ret": "cvptr"},
                                {"name": "at", "recv": "ref", "args": ["u64"], "ret": "ptr"},
                                {"name": "into_raw", "recv": "own", "args": [], "ret": "vptr"}]},
+    # shares TWO function names (f, n0) with Tb: a group of both has several clashing functions per trait
+    {"name": "Tg", "methods": [{"name": "n0", "recv": "ref", "args": [], "ret": "u64"},
+                               {"name": "z", "recv": "ref", "args": ["i32"], "ret": "void"},
+                               {"name": "f", "recv": "ref", "args": ["u64"], "ret": "u64"}]},
 ]
 
 
